@@ -787,6 +787,20 @@ class Formatter:
         return "".join(self.out)
 
 
+def float_display(v):
+    """Rust's Display for f32/f64 on the sample values used by the rules: no exponent, integral values without a
+    fraction, `-0` for negative zero; other values only if Python's shortest repr has no exponent either"""
+    if v != v or v in (float("inf"), float("-inf")):
+        raise NotEvaluable("non-finite float")
+    if v == int(v):
+        import math
+        return ("-" if math.copysign(1.0, v) < 0 else "") + str(abs(int(v)))
+    r = repr(v)
+    if "e" in r or "E" in r:
+        raise NotEvaluable("float sample needs exponent-free rendering")
+    return r
+
+
 def render_placeholder(p, v):
     """text of one format placeholder for an evaluated value (integers, chars, strings, bools)"""
     if isinstance(v, Newtype):
@@ -800,6 +814,8 @@ def render_placeholder(p, v):
             t = "true" if v else "false"
         elif isinstance(v, (int, str)):
             t = str(v)
+        elif isinstance(v, float):
+            t = float_display(v)
         else:
             raise NotEvaluable(f"display of {type(v).__name__}")
     elif p.trait in ("lower_hex", "upper_hex"):
@@ -897,6 +913,17 @@ class Interp:
             if hi is not None and (x > hi if p.get("incl", True) else x >= hi):
                 return False
             return True
+        if k in ("ts", "struct", "path") and isinstance(v, tuple) and v and v[0] == "enum":
+            path = (p.get("res") or {}).get("path", "")
+            if path != v[1]:
+                return False
+            subs = (p.get("subs") or []) if k == "ts" else [f[1] for f in p.get("fields", [])] if k == "struct" else []
+            if k == "ts" and p.get("dd") is not None:
+                subs = []
+            for s_, x in zip(subs, v[2]):
+                if not self.bind(s_, x, env):
+                    return False
+            return True
         if k in ("ts", "struct"):
             path = (p.get("res") or {}).get("path", "")
             subs = p.get("subs") if k == "ts" else [f[1] for f in p.get("fields", [])]
@@ -926,8 +953,20 @@ class Interp:
                 if r.get("path") in env:
                     return env[r["path"]]
             raise NotEvaluable(f"path {r.get('path')}")
-        if k in ("ref", "cast"):
+        if k == "ref":
             return self.ev(e["e"], env)
+        if k == "cast":
+            v = self.ev(e["e"], env)
+            ty = e.get("ty") or ""
+            if ty == "char" and isinstance(v, int) and not isinstance(v, bool):
+                return RChar(chr(v))
+            if isinstance(v, RChar) and ty != "char":
+                return ord(v)
+            if isinstance(v, float) and re.fullmatch(r"[iu](8|16|32|64|128|size)", ty):
+                return int(v)
+            if isinstance(v, int) and not isinstance(v, bool) and ty in ("f32", "f64"):
+                return float(v)
+            return v
         if k == "un":
             a = self.ev(e["a"], env)
             if e["op"] == "Not":
@@ -1120,6 +1159,17 @@ class Interp:
             f = Formatter()
             self.call_fn(hs[0], [recv, f])
             return f.text()
+        if isinstance(recv, float):
+            if m == "is_finite":
+                return recv == recv and recv not in (float("inf"), float("-inf"))
+            if m == "is_nan":
+                return recv != recv
+            if m == "trunc":
+                return float(int(recv))
+            if m == "fract":
+                return recv - int(recv)
+            if m == "to_string":
+                return float_display(recv)
         if isinstance(recv, int) and not isinstance(recv, bool):
             if m == "to_string":
                 return str(recv)
